@@ -115,7 +115,15 @@ impl Monitor for C15 {
         }
         let limit = [40_000usize, 3_000, 257, 52][(idx % 4) as usize];
         let _ = base.set_insn_limit(Some(limit));
-        let _ = base.set_stack_limit(Some(100_000));
+        // mostly far away; sometimes just above what is on the stack already, so that pushes made while the source is
+        // built (immediate words, meta blocks) and pushes made while it runs meet the same limit in every drive mode
+        let d = base.verif_dump();
+        let depth = d.data_hidden.len() + d.data_visible.len();
+        let tight = idx % 5 == 2;
+        let _ = base.set_stack_limit(Some(if tight { depth + 1 + (idx / 5 % 3) as usize } else { 100_000 }));
+        if tight {
+            obs.count("programs_under_a_tight_stack_limit");
+        }
         let mut first: Option<(String, String)> = None;
         let mut results = Vec::new();
         'outer: for rec in [false, true] {
